@@ -210,7 +210,7 @@ theorem offsetFetch_bytes {cid g : Bytes} {corr : Int} {ps : List OffsetFetchReq
               induction tp.2 with
               | nil => rfl
               | cons p ps ih2 => simp only [encAll, List.map_cons, ih2]; rfl
-          rw [encodeHeader_ok hhd, writeShortAscii_some hgb, pack_i hnb, hb.1, hb.2, henc]
+          rw [encodeHeader_ok hhd, writeShortText_some hgb, pack_i hnb, hb.1, hb.2, henc]
           simp [request_enc, Spec.offsetFetchRequest, Spec.topics, seq_enc, array_enc, hdr,
             hdrKey_encode_offset_fetch_request, hdrVer_encode_offset_fetch_request, List.append_assoc]
 
@@ -265,7 +265,7 @@ theorem offsetCommit_bytes {cid g c : Bytes} {corr gen : Int} {ps : List OffsetC
                 ps l hk (Decidable.not_not.mp hcnt) body hbody
               simp only [fmt_encode_offset_commit_request_0] at hgenb
               simp only [fmt_encode_offset_commit_request_1] at hnb
-              rw [encodeHeader_ok hhd, writeShortAscii_some hgb, pack_i hgenb, writeShortAscii_some hcb, pack_i hnb, hb.1, hb.2]
+              rw [encodeHeader_ok hhd, writeShortText_some hgb, pack_i hgenb, writeShortText_some hcb, pack_i hnb, hb.1, hb.2]
               simp [request_enc, Spec.offsetCommitRequest, Spec.topics, seq_enc, array_enc, hdr,
                 hdrKey_encode_offset_commit_request, hdrVer_encode_offset_commit_request, List.append_assoc]
 
